@@ -56,6 +56,7 @@ type runner struct {
 	db        *litestream.DB
 	acked     []uint64 // replica TXIDs acknowledged by upload/syncandwait
 	noInsert  bool
+	maxSync   int64 // MaxSyncWALBytes mixed into every scenario by seed (0 = litestream default)
 	snapFirst int
 }
 
@@ -204,6 +205,9 @@ func (r *runner) newLS() {
 	db.MonitorInterval = 0
 	db.Replica = litestream.NewReplicaWithClient(db, file.NewReplicaClient(r.replicaDir()))
 	db.Replica.MonitorEnabled = false
+	if r.maxSync > 0 {
+		db.MaxSyncWALBytes = r.maxSync
+	}
 	r.db = db
 }
 
@@ -825,9 +829,15 @@ func Main(args []string) int {
 	scenarios := map[string]func(){
 		"basic": r.scBasic, "compact": r.scCompact, "restore": r.scRestore,
 		"follow": r.scFollow, "behind": r.scBehind, "reopen": r.scReopen, "restorev3": r.scRestoreV3,
-		"pinned": r.scPinned, "ckptbusy": r.scCkptBusy, "restoreside": r.scRestoreSide, "republish": r.scRepublish, "l0ret": r.scL0Ret,
+		"pinned": r.scPinned, "ckptbusy": r.scCkptBusy, "restoreside": r.scRestoreSide, "republish": r.scRepublish, "l0ret": r.scL0Ret, "chunked": r.scChunked,
 	}
 	r.noInsert = *noInsert
+	switch *seed % 4 { // mix a small sync budget into the ordinary scenarios
+	case 0:
+		r.maxSync = 16 << 10
+	case 1:
+		r.maxSync = 64 << 10
+	}
 	r.snapFirst = *snapFirst
 
 	defer func() {
